@@ -868,6 +868,14 @@ impl<'a> Sc<'a> {
                     done!(k as i64)
                 }
             }
+            Op::CellNested { c, k } => {
+                // the outer access, then loom's misuse panic
+                let l = self.cell_loc(c);
+                race!(Self::access(&mut s.ck, t, l, k != 1));
+                s.panicked = true;
+                out.push(Step::Done(s));
+                return;
+            }
             Op::PanicInCellMut { c } => {
                 let l = self.cell_loc(c);
                 race!(Self::access(&mut s.ck, t, l, true));
